@@ -50,6 +50,7 @@ const c21Slots = 3
 //   validate  [ph, slot, via(0 router,1 Validate,2 Unwrap), mutation(0 none, 1.. kinds)]
 //   revoke    [ph, slot]       unrevoke [ph, slot]      flush [ph]     purge [ph, class idx]
 //   advance   [ph, seconds]    (alone, after the phase)
+//   restart   [ph, rekey]      (alone, after the phase: caches and the store handle are lost, the store file survives)
 func (c21Engine) Generate(seed uint64, tier string) *simrun.Case {
 	r := sim.NewRand(seed)
 	c := &simrun.Case{Prop: "C21", Engine: "auth-hist", Seed: seed, SchedSeed: sim.Mix(seed, 21), Knobs: map[string]int64{}}
@@ -100,6 +101,15 @@ func (c21Engine) Generate(seed uint64, tier string) *simrun.Case {
 		if r.Chance(1, 2) {
 			c.Ops = append(c.Ops, simrun.Op{C: 0, K: "advance", A: []int64{ph, c21Advances[r.Intn(len(c21Advances))]}})
 		}
+		if r.Chance(1, 8) {
+			// server restart after the phase: only the revocation store on disk survives; one restart in three comes
+			// up with a different token key
+			rekey := int64(0)
+			if r.Chance(1, 3) {
+				rekey = 1
+			}
+			c.Ops = append(c.Ops, simrun.Op{C: 0, K: "restart", A: []int64{ph, rekey}})
+		}
 	}
 	// swarm: in two thirds of the runs every mutex release is followed by a scheduling point (a goroutine can lose
 	// the processor right after an Unlock, before its next statement)
@@ -129,6 +139,7 @@ type c21Tok struct {
 	revoked bool
 	unsure  bool // conflicting revoke/un-revoke in one phase: real order unknown until the next definite change
 	exists  bool
+	keyGen  int // generation of the server token key it was issued under
 }
 
 // c21Mutate: every kind of single edit of the hex token string.
@@ -213,6 +224,7 @@ func (c21Engine) Execute(t *testing.T, c *simrun.Case, keepLog bool) *simrun.Out
 		}, http.MethodGet).Authentication(true)
 		start := time.Now()
 		toks := make([]c21Tok, c21Slots)
+		keyGen := 0
 		res = sim.Run(c.SchedOptions(keepLog), func() {
 			maxPh := int64(0)
 			for _, op := range c.Ops {
@@ -312,7 +324,7 @@ func (c21Engine) Execute(t *testing.T, c *simrun.Case, keepLog bool) *simrun.Out
 									continue
 								}
 								mu.Lock()
-								toks[s] = c21Tok{str: str, id: tk.TokenID.String(), user: user, expires: time.Since(start) + c21LifeDur[li], exists: true}
+								toks[s] = c21Tok{str: str, id: tk.TokenID.String(), user: user, expires: time.Since(start) + c21LifeDur[li], exists: true, keyGen: keyGen}
 								mu.Unlock()
 							case "revoke":
 								mu.Lock()
@@ -373,6 +385,9 @@ func (c21Engine) Execute(t *testing.T, c *simrun.Case, keepLog bool) *simrun.Out
 									if !m.exists {
 										return false, true
 									}
+									if m.keyGen != keyGen {
+										return false, true // issued under a token key that is not the current one
+									}
 									if now == m.expires || m.unsure {
 										return false, false
 									}
@@ -389,7 +404,7 @@ func (c21Engine) Execute(t *testing.T, c *simrun.Case, keepLog bool) *simrun.Out
 									if !accepted {
 										what, class = "rejected", "valid-token-rejected"
 									}
-									why := fmt.Sprintf("expires at %v, revoked=%v, mutated=%v", before[s].expires, before[s].revoked, mutated)
+									why := fmt.Sprintf("expires at %v, revoked=%v, mutated=%v, issued under the current token key=%v", before[s].expires, before[s].revoked, mutated, before[s].keyGen == keyGen)
 									bad = append(bad, fmt.Sprintf("%s: op %d (%s via %s) at t=%v: token of %s %s although the model says valid=%v (%s)", class, i, op, []string{"router", "tokens.Validate", "tokens.Unwrap"}[op.Arg(2)%3], now, tk.user, what, vb, why))
 								}
 								if accepted && !mutated && who != tk.user {
@@ -413,6 +428,28 @@ func (c21Engine) Execute(t *testing.T, c *simrun.Case, keepLog bool) *simrun.Out
 				for _, op := range c.Ops {
 					if op.K == "advance" && op.Arg(0) == ph {
 						time.Sleep(time.Duration(op.Arg(1)) * time.Second)
+					}
+				}
+				for _, op := range c.Ops {
+					if op.K == "restart" && op.Arg(0) == ph {
+						// the process goes away and comes back: every cache and the store handle are gone, the
+						// revocation store on disk (and the configuration) survive
+						tokens.Close()
+						for _, cl := range []int{caches.TokenCache, caches.BlacklistCache, caches.AuthCache} {
+							caches.PurgeLocal(cl)
+						}
+						tokens.VerifSimReset()
+						if op.Arg(1) == 1 {
+							keyGen++
+							settings.SetDefault(defs.ServerTokenKeySetting, fmt.Sprintf("verifsim-other-token-key-%d-0123456789abcdef", keyGen))
+							out.Probe("restarts_with_new_key", 1)
+						}
+						if err := tokens.SetDatabasePath("sqlite3://" + filepath.Join(dir, "blacklist.db")); err != nil {
+							mu.Lock()
+							bad = append(bad, "harness: reopen of the revocation store failed: "+err.Error())
+							mu.Unlock()
+						}
+						out.Probe("restarts", 1)
 					}
 				}
 			}
